@@ -359,7 +359,9 @@ def disk_attrs(pid, fam, work):
         rc, so, se = run_env([B + '/harness', 'init-dump', root, out], ov, timeout=900, base=dict(ENV, HOME=work))
         stats['disk_attr_environments'] += 1
         if rc != 0:
-            bad.append(dict(what='graph.Initialize failed on the family written to disk (%s): %s' % (ov[0], se.decode(errors='replace')[-200:]), case=None, detail=[]))
+            # nothing at all is reported for these declarations: a violation with the environment and the files as input
+            bad.append(dict(what='the scan of the family written to disk ends abnormally (rc=%d) in this environment: %s' % (rc, ov[0]), case=None, environment=ov[1], open_files=ov[2],
+                            stderr=se.decode(errors='replace')[-400:], files=[(os.path.relpath(p_, root), m_) for p_, (c__, m_) in list(expect.items())[:40]] + [('0big/Big<k>.java', '5 classes with 4000 fields each')]))
             break
         by = {}
         for line in open(out):
@@ -516,7 +518,8 @@ def check(pid, tier, seed, t0, st, replay):
                         if b_.get('case'):
                             res.violations.append(replay_payload(pid, b_['case'], b_['what'], b_['detail']))
                         else:
-                            res.tie_broken.append(b_['what'])
+                            res.violations.append(dict(property=pid, what=b_['what'], environment=b_.get('environment'), open_files_limit=b_.get('open_files'), stderr=b_.get('stderr'), files=b_.get('files'),
+                                                       how='write the family files (bin/check %s regenerates them from VERIF_SEED) as described, set the variables, run graph.Initialize on the directory' % pid))
                     pstats, pbad = objview.check_pairs(pid, fam_[:4] + fam_[-3:], work, B + '/harness', 10 if tier == 'quick' else 120, seed)
                     stats.update(pstats)
                     obad = obad + pbad
